@@ -204,6 +204,11 @@ impl RecvWindow {
         // Check received packet integrity, as per the Matter Core spec
         self.check_data_integrity(hdr, payload, mtu)?;
 
+        if self.level == 0 {
+            warn!("RX data integrity failure: The other party is overflowing our recv window");
+            Err(ErrorCode::InvalidData)?;
+        }
+
         if let Some(msg_len) = hdr.get_msg_len() {
             if msg_len as usize + hdr.len() <= mtu as usize && !hdr.is_final() {
                 warn!("RX data integrity failure: An SDU that fits in a single BTP segment must be final");
